@@ -7,6 +7,7 @@ CONSTANTS
   MaxInject = 1
   Styles = {"fresh"}
   MaxPos = 0
+  MaxSteps = 99
   Slice = 0
   NSlices = 1
 SPECIFICATION Spec
